@@ -51,6 +51,7 @@ RULE_FUNCS = [
     (D.r_best_nodes, ['R02.5', 'R02.6']),
     (D.r_reset, ['R06.3', 'R02.5']),
     (FL.r_flags, ['R06.4']),
+    (FL.r_flags_in_place, ['R06.4', 'R07.6']),
     (D.r_pooled_layers, ['R15.1', 'R15.2', 'R15.3', 'R15.5']),
     (GR.r_gap, ['R17']),
     (VR.r_viz, ['R20.a', 'R20.b', 'R20.c', 'R20.d']),
@@ -150,7 +151,7 @@ PROPS = {
     'C01': dict(fn=mk(C01_RULES, lambda r: _c01_keep(r)), explanation='prune polarity at the pop / enqueue / rough-bound sites, restricted->relaxed->enqueue protocol, Complete only on an empty fringe, exactness withdrawn on every path that squashes a layer'),
     'C02': dict(fn=mk(['R02.', 'R12.a', 'R06.1', 'R06.2', 'R06.3', 'R11.d', 'R11.e', 'R08.1', 'R15.2'], lambda r: r['rule'] != 'R15.2' or 'depth' in r['instance']), explanation='incumbent value and solution written together from the exact accessors of one diagram (one lock region in the parallel solver), improve-only guard, reported value = best_sol.map(|_| best_lb); longest-path max-update with witness edge; value and path read from one node; exact-best selection table'),
     'C03': dict(technique='repository-specific static rules over rustc MIR (rustc_private driver): edge-cut reachability, must-pass-through, origin terms, lock regions; compile_fail witnesses (Send + Sync models, private shared state)', witnesses=['W1', 'W2'], fn=mk(['R05.2', 'R01.', 'R02.', 'R03.', 'R04.9', 'R04.7', 'R04.10', 'R06.', 'R07.1', 'R07.5', 'R07.6', 'R15.5', 'R15.2', 'R08.', 'R09.', 'R10.', 'R11.', 'R12.', 'R18.'], _c03_keep), explanation='C01 clauses instantiated on ParallelSolver, lock regions (no re-entrant acquisition, one acquisition per check-then-act), pop-time discard polarity, cache mark guarded by must_explore'),
-    'C04': dict(technique='repository-specific static rules over rustc MIR (rustc_private driver): edge-cut reachability, must-pass-through, origin terms, lock regions; path-consistent guard enumeration for the condvar protocol; lower-bound interval domain (at least one worker)', fn=mk(['R04.', 'R11.c', 'R09.8', 'R18.a'], lambda r: r['rule'].startswith(('R04', 'R11', 'R18')) or r['instance'].startswith(('par/', 'clear-zeroes'))), explanation='checked premises P1-P9 of the deadlock-freedom argument (DESIGN.md C04): pairing of ongoing, release on every worker exit, wake-up not before the decrement, wait guards (path-consistent enumeration), completion guard, no re-entrant lock, vector length coupled to nb_threads, spawn range, at least one worker (lower-bound interval domain on every writer of nb_threads)'),
+    'C04': dict(technique='repository-specific static rules over rustc MIR (rustc_private driver): edge-cut reachability, must-pass-through, origin terms, lock regions; path-consistent guard enumeration for the condvar protocol; lower-bound interval domain (at least one worker)', fn=mk(['R04.', 'R11.c', 'R09.8', 'R18.a', 'R13.c', 'R08.3'], lambda r: r['rule'].startswith(('R04', 'R11', 'R18', 'R13.c', 'R08.3')) or r['instance'].startswith(('par/', 'clear-zeroes'))), explanation='checked premises P1-P9 of the deadlock-freedom argument (DESIGN.md C04): pairing of ongoing, release on every worker exit, wake-up not before the decrement, wait guards (path-consistent enumeration), completion guard, no re-entrant lock, vector length coupled to nb_threads, spawn range, at least one worker (lower-bound interval domain on every writer of nb_threads)'),
     'C05': dict(fn=mk(['R05.', 'R19.1', 'R19.2', 'R11.', 'R02.1', 'R02.5', 'R01.2', 'R01.3']), explanation='cutoff => Err without finalisation; Err => abort_search on all paths; abort_proof set; completion unreachable after abort; bound stored at abort covers own node, in-flight nodes and fringe top; sequential best_ub written at pop only'),
     'C06': dict(fn=mk(['R06.', 'R02.4', 'R02.6', 'R01.6', 'R01.7', 'R12.e', 'R12.d', 'R07.5', 'R05.1']), explanation='arc redirection with relaxed cost, relaxed/deleted flags, exactness propagation, complete reset between compilations (field table from the ADT), flag bits and tables, rough-bound pruning direction, exactness withdrawn when squashing'),
     'C07': dict(fn=mk(['R07.', 'R01.7', 'R02.4', 'R02.5', 'R02.6', 'R13.a', 'R13.b', 'R06.3', 'R12.a', 'R12.d', 'R05.1']), explanation='restricted never merges, exact never squashes, truncation withdraws exactness and flags dropped nodes, squash order, value and path from one node through the best-edge chain, expanded vector is the squashed one'),
@@ -171,5 +172,5 @@ PROPS = {
                       (r['rule'].startswith('R05') and (r['instance'].startswith(('seq/', 'ANCHOR')) or 'sequential' in (r['fn'] or ''))) or
                       (r['rule'].startswith(tuple(C01_RULES)) and _c01_keep(r))),
                 explanation='best_ub := popped ub, child bound = min(parent, child), incumbent improve-only, Complete sets best_ub := best_lb, sequential abort handling (the bound reported at a cut-off), fringe order (the reported bound is the top of the fringe); the last clause (from some index on the run is exact with both bounds equal to the optimum) is sequential optimality, so the rules of C01 are necessary conditions as well'),
-    'C20': dict(technique='repository-specific static rules over rustc MIR (rustc_private driver): edge-cut reachability, must-pass-through, origin terms, lock regions; panic-site inventory over the call graph, ID provenance for indexing, forward taint analysis (user text to the returned String)', fn=mk(['R20.', 'R15.2', 'R07.6', 'R07.4', 'R06.1', 'R02.4'], lambda r: r['rule'].startswith(('R20', 'R07.6')) or 'terminal-layer' in r['instance'] or 'created-' in r['instance'] or 'restrict-deletes-dropped' in r['instance'] or 'arcs-are-never-rewritten' in r['instance'] or 'every-arc-is-stored' in r['instance']), explanation='panic-site inventory of as_graphviz (call graph) with its discharge (layers non-empty after every successful compilation), one emission per visible node (skip only when hidden by configuration), edge label provenance over the inbound list, terminal drawn only when the terminal container is non-empty, user text (Debug of the states) reaches the returned String only through an escaping of the double quote and the backslash (forward taint analysis, taint.py)'),
+    'C20': dict(technique='repository-specific static rules over rustc MIR (rustc_private driver): edge-cut reachability, must-pass-through, origin terms, lock regions; panic-site inventory over the call graph, ID provenance for indexing, forward taint analysis (user text to the returned String)', fn=mk(['R20.', 'R15.2', 'R07.6', 'R07.4', 'R06.1', 'R06.4', 'R02.4'], lambda r: r['rule'].startswith(('R20', 'R07.6', 'R06.4')) or 'terminal-layer' in r['instance'] or 'created-' in r['instance'] or 'restrict-deletes-dropped' in r['instance'] or 'arcs-are-never-rewritten' in r['instance'] or 'every-arc-is-stored' in r['instance']), explanation='panic-site inventory of as_graphviz (call graph) with its discharge (layers non-empty after every successful compilation), one emission per visible node (skip only when hidden by configuration), edge label provenance over the inbound list, terminal drawn only when the terminal container is non-empty, user text (Debug of the states) reaches the returned String only through an escaping of the double quote and the backslash (forward taint analysis, taint.py)'),
 }
